@@ -59,3 +59,55 @@ def _has_side_effect(e):
     hit = [False]
     walk(e, lambda n: hit.__setitem__(0, True) if n.get("k") in ("Assign",) or (n.get("k") == "Un" and n.get("op") in ("++", "--")) or (n.get("k") == "Call" and (n.get("cname") or "").startswith(("read", "next", "random"))) else None)
     return hit[0]
+
+
+def tautologies(facts, fams=None):
+    """x == x / x < x / x = x / min(x, x) / identical if-else arms: the second operand was meant to be a different variable"""
+    fns = functions_by(facts)
+    out = []
+    scanned = 0
+    for pat, fn in sorted(fns.items()):
+        if fams and not any(pat.startswith(f) for f in fams):
+            continue
+        idx = [0]
+
+        def rep(n, what):
+            key = "%s:tautology#%d" % (short(fn["patq"]), idx[0])
+            idx[0] += 1
+            out.append(ob("lint.tautology", key, n.get("loc", fn["pat"]), "violated", what, fn["qname"]))
+
+        def v(n):
+            nonlocal scanned
+            k = n.get("k")
+            if k == "Bin" and n.get("op") in ("==", "!=", "<", ">", "<=", ">=", "-", "&&", "||"):
+                scanned += 1
+                if not _has_side_effect(n) and txt(n["l"]) == txt(n["r"]) and strip(n["l"]).get("k") not in ("Int", "Float", "Bool") and "v" not in strip(n["l"]):
+                    rep(n, "`%s`: both operands are the same expression (the second was meant to be a different variable)" % txt(n))
+            if k == "Assign" and n.get("op") == "=" and not _has_side_effect(n["r"]) and txt(n["l"]) == txt(n["r"]):
+                rep(n, "`%s` assigns a variable to itself" % txt(n))
+            if k == "Call" and (n.get("callee") or "").startswith(("std::min", "std::max", "std::swap")) and len(n.get("args", [])) == 2:
+                scanned += 1
+                if txt(n["args"][0]) == txt(n["args"][1]) and not _has_side_effect(n):
+                    rep(n, "`%s`: both arguments are the same expression" % txt(n))
+            if k == "If" and n.get("e") is not None and n.get("t") is not None:
+                scanned += 1
+                a, b = txt_stmt(n["t"]), txt_stmt(n["e"])
+                if a and a == b:
+                    rep(n, "both arms of `if (%s)` are identical (`%s`)" % (txt(n["c"]), a[:80]))
+        walk(fn["body"], v)
+    out.append(ob("lint.tautology", "all:expressions-scanned", "", "discharged", "%d comparisons / calls / if-else pairs scanned, %d tautologies" % (scanned, len(out)), ""))
+    ctl = {"k": "Bin", "op": "==", "l": {"k": "Ref", "n": "a", "d": 1, "dk": "local"}, "r": {"k": "Ref", "n": "a", "d": 1, "dk": "local"}}
+    ok = txt(ctl["l"]) == txt(ctl["r"])
+    out.append(ob("lint.tautology", "control:positive", "", "discharged" if ok else "unrecognised", "positive control `a == a` is recognised", ""))
+    return out
+
+
+def txt_stmt(s):
+    from astu import stmts_of
+    parts = []
+    for x in stmts_of(s):
+        if x.get("k") in ("Expr", "Return"):
+            parts.append(txt(x.get("e")))
+        else:
+            return None
+    return ";".join(parts)
